@@ -91,3 +91,16 @@ mod test {
         assert_eq!(cm.estimate(hash), 2);
     }
 }
+
+#[cfg(feature = "verif-hooks")]
+impl CountMinSketch {
+    pub(crate) fn verif_rows(&self) -> alloc::vec::Vec<alloc::vec::Vec<u8>> {
+        self.rows.iter().map(|r| r.verif_bytes()).collect()
+    }
+
+    pub(crate) fn verif_seeds(&self) -> [u64; DEPTH] {
+        [0; DEPTH]
+    }
+
+    pub(crate) fn verif_reseed(&mut self, _seeds: [u64; DEPTH]) {}
+}
